@@ -128,58 +128,81 @@ func discharge(o *Obligation, scratch string, timeout time.Duration) {
 	if o.Vacuity {
 		want = "sat"
 	}
-	solverSem <- struct{}{}
-	stage1 := 2 * time.Second
-	if timeout < stage1 {
-		stage1 = timeout
-	}
-	r := runSolver(context.Background(), solvers[0], file, stage1)
-	<-solverSem
-	if r.status == "unsat" || r.status == "sat" || o.Vacuity {
+	// z3 5.1 starts at once with the full time limit; if it has not answered after 2 s the two other solvers join the
+	// race (first definite answer wins). Vacuity checks use z3 5.1 alone with a 2 s limit.
+	if o.Vacuity {
+		solverSem <- struct{}{}
+		r := runSolver(context.Background(), solvers[0], file, 2*time.Second)
+		<-solverSem
 		o.Status, o.Backend, o.Ms = r.status, r.backend, r.ms
 		o.finish(want, scratch)
 		return
 	}
-	firstErr := ""
-	if r.status == "error" {
-		firstErr = r.out
-	}
-	// stage 2: race
 	ctx, cancel := context.WithCancel(context.Background())
 	defer cancel()
 	ch := make(chan solveResult, len(solvers))
-	for _, s := range solvers {
-		go func(s solverSpec) {
+	start := time.Now()
+	launch := func(s solverSpec, lim time.Duration) {
+		go func() {
 			solverSem <- struct{}{}
 			defer func() { <-solverSem }()
-			ch <- runSolver(ctx, s, file, timeout)
-		}(s)
+			ch <- runSolver(ctx, s, file, lim)
+		}()
 	}
+	launch(solvers[0], timeout)
+	pending := 1
+	others := false
+	timer := time.NewTimer(2 * time.Second)
+	defer timer.Stop()
 	best := solveResult{status: "unknown"}
-	var total int64
+	firstErr := ""
 	nErr := 0
-	for range solvers {
-		r := <-ch
-		total += r.ms
-		if r.status == "unsat" || r.status == "sat" {
-			best = r
-			cancel()
-			break
-		}
-		if r.status == "error" {
-			nErr++
-			if firstErr == "" {
-				firstErr = r.backend + ": " + r.out
+	done := false
+	for pending > 0 && !done {
+		select {
+		case <-timer.C:
+			if !others {
+				others = true
+				remaining := timeout - time.Since(start)
+				if remaining > time.Second {
+					launch(solvers[1], remaining)
+					launch(solvers[2], remaining)
+					pending += 2
+				}
+			}
+		case r := <-ch:
+			pending--
+			if r.status == "unsat" || r.status == "sat" {
+				best = r
+				done = true
+				break
+			}
+			if r.status == "error" {
+				nErr++
+				if firstErr == "" {
+					firstErr = r.backend + ": " + r.out
+				}
+			}
+			if best.status == "unknown" && r.status == "timeout" {
+				best = r
+			}
+			// z3 5.1 gave up early (unknown): let the others try at once
+			if !others && r.backend == solvers[0].Name {
+				others = true
+				remaining := timeout - time.Since(start)
+				if remaining > time.Second {
+					launch(solvers[1], remaining)
+					launch(solvers[2], remaining)
+					pending += 2
+				}
 			}
 		}
-		if best.status == "unknown" && r.status == "timeout" {
-			best = r
-		}
 	}
-	o.Status, o.Backend, o.Ms = best.status, best.backend, r.ms+best.ms
+	cancel()
+	o.Status, o.Backend, o.Ms = best.status, best.backend, time.Since(start).Milliseconds()
 	if best.status != "unsat" && best.status != "sat" && firstErr != "" {
 		o.Model = "solver error: " + firstLines(firstErr, 5)
-		if nErr == len(solvers) {
+		if nErr == 3 {
 			o.Status = "error"
 		}
 	}
